@@ -41,7 +41,9 @@ def find_rrt_cases(script, scope, cases, text):
         regs = sorted(int(s[1:]) for s in gen.expr_symbols(e) if s.startswith("q"))
         if sorted(t.regrefs) != regs or len(t.regrefs) != len(set(t.regrefs)):
             return "transform of %s lists registers %s, written registers %s" % (gen.r_expr(e, gen.Layout()), t.regrefs, regs)
-        for pt in canon.POINTS:
+        # float points and integer points (measurement results of photon-number detectors are integers; the
+        # function must compute with them exactly as Python does, also beyond 64 bits)
+        for pt in list(canon.POINTS) + [lambda i: 3 + 2 * i]:
             vals = {r: pt(i) for i, r in enumerate(regs)}
             env = dict(scope.vals)
             env.update({"q%d" % r: v for r, v in vals.items()})
@@ -145,7 +147,61 @@ def substr_corr(ctx, texts):
             ctx.traces += 1
 
 
+def check_intpoint(text, vals, want):
+    """the transform of the first argument at integer values, against exact Python arithmetic"""
+    r = core.impl_loads(text)
+    if r[0] != "ok":
+        return "refused: %r" % (r[1],)
+    t = r[1].operations[0]["args"][0]
+    if not hasattr(t, "regrefs"):
+        # SymPy cancelled a register: only the remaining ones are listed
+        return None
+    try:
+        have = t.func(*[vals[q] for q in t.regrefs])
+    except KeyError:
+        return "transform %s lists registers %s, written %s" % (t.func_str, t.regrefs, sorted(vals))
+    if isinstance(want, int):
+        ok = (not isinstance(have, bool)) and have == want
+    else:
+        ok = canon.close(have, want, 1e-12, 0.0)
+    return None if ok else "transform %s gives %r at %s, exact arithmetic gives %r" % (t.func_str, have, vals, want)
+
+
+def check_mixed(text, pn, regs):
+    """one statement holds a template-parameter argument and a register argument"""
+    from blackbird.listener import RegRefTransform
+    r = core.impl_loads(text)
+    if r[0] != "ok":
+        return "refused: %r" % (r[1],)
+    if sorted(r[1].parameters) != [pn]:
+        return "free parameters %s, written {%s}" % (sorted(r[1].parameters), pn)
+    seen_par, seen_reg = False, False
+    for o in r[1].operations:
+        for a in list(o.get("args", [])) + list(o.get("kwargs", {}).values()):
+            if isinstance(a, RegRefTransform):
+                if any(str(s) == pn for s in sym.sympify(a.expr).free_symbols) if hasattr(a, "expr") else False:
+                    return "the template parameter %s is delivered inside a register transform" % pn
+                if sorted(a.regrefs) == regs:
+                    seen_reg = True
+            elif isinstance(a, sym.Expr):
+                names = sorted(str(s) for s in a.free_symbols)
+                if names == [pn]:
+                    seen_par = True
+                else:
+                    return "symbolic argument over %s delivered as a plain value" % names
+    if not seen_par:
+        return "the argument {%s} is not delivered as a free parameter" % pn
+    if not seen_reg:
+        return "the register expression over %s is not delivered as a transform of those registers" % regs
+    return None
+
+
 def replay(ctx, data):
+    if data.get("kind") == "intpoint":
+        w = data["want"]
+        return check_intpoint(data["text"], {int(k): v for k, v in data["vals"].items()}, float(w) if ("." in w or "e" in w) else int(w))
+    if data.get("kind") == "mixed":
+        return check_mixed(data["text"], data["param"], data["regs"])
     if data.get("kind") == "tiny":
         return check_tiny(data["text"], data["regs"])
     if data.get("kind") == "loop_rrt":
@@ -246,6 +302,42 @@ def run(ctx):
         msg = check_tiny(text, sorted({a, b}))
         if msg:
             ctx.violation("register transform: " + msg, {"kind": "tiny", "text": text, "regs": sorted({a, b})})
+    # integer measurement results (photon numbers) of any size: the transform computes with them as Python does,
+    # exactly, also when an intermediate result leaves the 64-bit range
+    for _ in range(ctx.n(40, 400)):
+        a, b = ctx.rng.sample(range(0, 13), 2)
+        form, fn = ctx.rng.choice([
+            ("q%d**2*q%d**12 - 3*q%d" % (a, b, a), lambda x, y: x ** 2 * y ** 12 - 3 * x),
+            ("1000003*q%d**3/(q%d + 1)" % (a, b), lambda x, y: 1000003 * x ** 3 / (y + 1)),
+            ("q%d**9 - 3*q%d**8 + q%d" % (a, a, b), lambda x, y: x ** 9 - 3 * x ** 8 + y),
+            ("(q%d + 1)**11 - q%d**11*q%d" % (a, a, b), lambda x, y: (x + 1) ** 11 - x ** 11 * y)])
+        text = "name r\nversion 1.0\n\nDgate(%s, 0.5) | 3\n" % form
+        x, y = ctx.rng.choice([(7, 41), (2500000, 1), (99991, 3), (12, 2 ** 40)])
+        ctx.count("integer-results-beyond-64-bits")
+        ctx.case((text, x, y), nontrivial=True)
+        texts.append(text)
+        msg = check_intpoint(text, {a: x, b: y}, fn(x, y))
+        if msg:
+            ctx.violation("register transform: " + msg, {"kind": "intpoint", "text": text, "vals": {str(a): x, str(b): y}, "want": repr(fn(x, y))})
+    # a register argument next to a pure template-parameter argument in one statement: the parameter stays a
+    # parameter, the register expression becomes a transform
+    for _ in range(ctx.n(60, 600)):
+        pn = ctx.rng.choice(["alpha", "p1", "a", "q1_phase", "op", "x"])
+        a, b, c = ctx.rng.sample(range(0, 13), 3)
+        rexpr = ctx.rng.choice(["0.5*q%d - q%d/4" % (a, b), "q%d + 2*q%d" % (a, b), "q%d**2 - q%d" % (b, a)])
+        form = ctx.rng.randrange(3)
+        if form == 0:
+            text = "name r\nversion 1.0\n\nDgate({%s}, %s, phi=3/(q%d + 2)) | 2\n" % (pn, rexpr, c)
+        elif form == 1:
+            text = "name r\nversion 1.0\n\nDgate(%s, {%s}*2) | 2\nG(select={%s}) | 1\n" % (rexpr, pn, pn)
+        else:
+            text = "name r\nversion 1.0\n\nG(a={%s}, select=%s) | 1\n" % (pn, rexpr)
+        ctx.count("register-argument-next-to-a-parameter-argument")
+        ctx.case(text, nontrivial=True)
+        texts.append(text)
+        msg = check_mixed(text, pn, sorted({a, b}))
+        if msg:
+            ctx.violation("register transform: " + msg, {"kind": "mixed", "text": text, "param": pn, "regs": sorted({a, b})})
     for _ in range(ctx.n(60, 600)):
         loop, unrolled = loop_rrt_case(ctx.rng)
         ctx.count("loop-with-register-expression-over-loop-variable")
